@@ -30,9 +30,7 @@ type drvBuildResult struct {
 
 var drvFileRe = regexp.MustCompile(`p/mock_(I\d+)\.go:\d+`)
 
-// drvFlags, when set, adds per-mock flags to the glue (mocks of one file generated with different template-data).
-var drvFlagsNone func(it corpIface) string
-
+// drvGlue: flags, when given, adds per-mock flags to the glue (mocks of one file generated with different template-data).
 func drvGlue(ifaces []corpIface, newExpr func(it corpIface) string, flags ...func(it corpIface) string) string {
 	var b strings.Builder
 	b.WriteString("package main\n\nimport (\n\t\"reflect\"\n\n\t\"example.com/m/p\"\n)\n\nvar mocks = []mockDesc{\n")
@@ -63,18 +61,27 @@ func drvBuild(c *core.Ctx, name, template string, data core.M, level string, ifa
 		"dir": "{{.InterfaceDir}}", "filename": "mock_{{.InterfaceName}}.go", "pkgname": "p",
 	}
 	ifc := core.M{}
+	neg := core.M{}
+	for k, v := range data {
+		if b, ok := v.(bool); ok {
+			neg[k] = !b
+		}
+	}
 	for i, it := range ifaces {
 		switch {
 		case level == "iface", level == "mixed" && i%2 == 0:
 			ifc[it.Name] = core.M{"config": core.M{"template-data": data}}
+		case level == "mixed+root" && i%2 == 0:
+			// the data is written at the top level and switched off again on every other interface
+			ifc[it.Name] = core.M{"config": core.M{"template-data": neg}}
 		default:
 			ifc[it.Name] = core.M{}
 		}
 	}
-	if level == "root" {
+	if level == "root" || level == "mixed+root" {
 		cfg["template-data"] = data
 	}
-	if level == "mixed" {
+	if level == "mixed" || level == "mixed+root" {
 		// all mocks in ONE file: what one interface's settings switch on must not carry over to the next one rendered
 		cfg["filename"] = "mocks_all.go"
 	}
@@ -108,6 +115,12 @@ func drvBuild(c *core.Ctx, name, template string, data core.M, level string, ifa
 			}
 		}
 		if len(bad) == 0 {
+			if strings.Contains(rb.Stderr, "p/mocks_all.go:") {
+				// the shared file of a mixed-settings variant (interfaces without hostile names): the mocks cannot
+				// forward anything if they do not compile
+				res.genErr = "the generated mocks do not compile: " + firstN(rb.Stderr, 600)
+				return res, nil
+			}
 			return res, fmt.Errorf("driver for %s does not build: %s", name, firstN(rb.Stderr, 1500))
 		}
 		var keep []corpIface
@@ -159,10 +172,13 @@ func C04(c *core.Ctx) error {
 		level               string
 	}
 	var variants []variant
-	for _, level := range []string{"root", "iface", "mixed"} {
+	for _, level := range []string{"root", "iface", "mixed", "mixed+root"} {
 		for i := 0; i < 8; i++ {
-			if level == "mixed" && i == 0 {
+			if strings.HasPrefix(level, "mixed") && i == 0 {
 				continue
+			}
+			if level == "mixed+root" && quick && i != 2 && i != 7 {
+				continue // quick: stub-impl alone and all three keys
 			}
 			v := variant{skip: i&1 != 0, stub: i&2 != 0, resets: i&4 != 0, level: level}
 			v.name = fmt.Sprintf("skip-ensure=%v,stub-impl=%v,with-resets=%v@%s", v.skip, v.stub, v.resets, level)
@@ -186,20 +202,23 @@ func C04(c *core.Ctx) error {
 			data["with-resets"] = true
 		}
 		var flags func(it corpIface) string
-		if v.level == "mixed" {
-			// the data goes to every other interface of the file (those at even positions): each mock is driven
-			// with its own effective settings
+		if strings.HasPrefix(v.level, "mixed") {
+			// the data goes to every other interface of the file (those at even positions) -- or to the top level
+			// and is switched off on those --: each mock is driven with its own effective settings
 			pos := map[string]int{}
 			for k, it := range plainIfaces {
 				pos[it.Name] = k
 			}
 			flags = func(it corpIface) string {
 				on := pos[it.Name]%2 == 0
+				if v.level == "mixed+root" {
+					on = !on
+				}
 				return fmt.Sprintf("Flags: map[string]bool{\"stub\": %v, \"resets\": %v}", on && v.stub, on && v.resets)
 			}
 		}
 		vIfaces := ifaces
-		if v.level == "mixed" {
+		if strings.HasPrefix(v.level, "mixed") {
 			vIfaces = plainIfaces // one shared file: an uncompilable mock (C01's subject) would take the others with it
 		}
 		b, err := drvBuild(c, fmt.Sprintf("c04-%d", i), "matryer", data, v.level, vIfaces, "c04/main.go.txt", func(it corpIface) string {
@@ -214,10 +233,10 @@ func C04(c *core.Ctx) error {
 			return
 		}
 		args := []string{fmt.Sprintf("-depth=%d", depth)}
-		if v.stub && v.level != "mixed" {
+		if v.stub && !strings.HasPrefix(v.level, "mixed") {
 			args = append(args, "-stub")
 		}
-		if v.resets && v.level != "mixed" {
+		if v.resets && !strings.HasPrefix(v.level, "mixed") {
 			args = append(args, "-resets")
 		}
 		r := core.Run(b.dir, core.UserEnv(), 40*time.Minute, "", b.bin, args...)
